@@ -820,4 +820,9 @@ def run(ctx, prog):
                         'TieredEngine::spawn_flush_task cannot come back to its tick under the Periodic policy without calling HnswBackend::sync_wal; (c) sync_wal '
                         'returns Ok only past a successful file sync of the log unless persistence is off. Not decided: that the ticker\'s period is the configured interval')
     periodic_sync(ctx, prog, eff, 'C01.R14')
+    # ------------------------------------------------------------------ R15 = C02.R6 the log carries what was applied and acknowledged
+    ctx.rule('C01.R15', 'post-image agreement (= C02.R6, shared function): the recovered collection equals the acknowledged history only if each mutator logs exactly what it '
+                        'installs in memory — update_metadata logs the map it assigns (the merged map, not the caller\'s delta; replay is a full replacement), insert logs '
+                        'the vector and metadata it pushes, taken after the last in-place change')
+    _c02.post_image_agreement(ctx, prog, 'C01.R15', ctx.body('C01.R15', 'HnswBackend::recover_with_hnsw_params_and_mode'))
     ctx.stat('functions_analysed', len(set(i['key'].split(' | ')[1] for i in ctx.instances)))
